@@ -9,7 +9,12 @@ pub fn table_names() -> Vec<String> {
     // the generated Lean table is the source of the names; the harness reads the same file
     let p = std::path::Path::new(env!("CARGO_MANIFEST_DIR")).join("../lean/Fcgi/Gen/Tables.lean");
     let text = std::fs::read_to_string(p).expect("Tables.lean");
-    let start = text.find("def staticVarNames").expect("staticVarNames");
+    // the translator drops an item it can no longer extract (the theorems about it then stop compiling); the oracle still needs the
+    // names: fall back to the committed snapshot
+    let Some(start) = text.find("def staticVarNames") else {
+        let snap = std::path::Path::new(env!("CARGO_MANIFEST_DIR")).join("static_names.txt");
+        return std::fs::read_to_string(snap).expect("static_names.txt").lines().filter(|l| !l.is_empty()).map(|l| l.to_string()).collect();
+    };
     let body = &text[start..];
     let end = body.find("\n]").unwrap();
     let mut out = vec![];
@@ -64,6 +69,9 @@ pub fn run(ctx: &mut Ctx) {
         let mut uf = base.clone(); uf.push('ÿ'); pool.push(uf);
     }
     let nsample = ctx.n(40, names.len() as u64) as usize;
+    // near misses of interned names: one `_`-separated token removed / doubled (an alias slipped into the interning table would equate
+    // such a name with a different interned one)
+    for n in names.iter() { let toks: Vec<&str> = n.split('_').collect(); if toks.len() >= 3 { for k in 1..toks.len() { let mut t = toks.clone(); t.remove(k); let v = t.join("_"); if !names.contains(&v) { pool.push(v.clone()); pool.push(v.to_ascii_lowercase()); } } } }
     for i in 0..nsample { let n = &names[(i * 7 + ctx.seed as usize) % names.len()]; pool.push(n.clone()); pool.push(n.to_ascii_lowercase()); pool.push(mixed(n, &mut rng)); pool.push(format!("{n}_")); pool.push(n[..n.len() - 1].to_string()); }
     for _ in 0..ctx.n(40, 400) {
         let l = rng.usize_below(40);
